@@ -330,7 +330,7 @@ def arg_sets(client, rng):
         elif kind == 2:
             o = client.factory.create("{%s}Derived" % wsdlkit.TNS)
             o.a = "x & y"
-            o.b = ""
+            o.b = "" if variant < 4 else "  \t "        # (white space is a value too, under either serializer)
             o.loc = {"city": "Zürich", "_code": 'Z<&>"H\''}
         else:
             o = {"a": None}
@@ -412,6 +412,42 @@ def option_checks(ctx):
                                 continue   # namespace inheritance under prefixes=False: reported above (D23)
                             ctx.fail("raw Element argument not carried intact", {"form": form, "args": ai, "options": key},
                                      rawnode, want)
+
+
+def toggled_client(ctx):
+    """The options are read at every request: one client switched from setting to setting builds, each time, what a
+    client constructed with that setting builds."""
+    rng = ctx.rng
+    w = make_wsdl("qualified")
+    live = wsdlkit.client(w, nosend=True)
+
+    def derived(c):
+        o = c.factory.create("{%s}Derived" % wsdlkit.TNS)
+        o.a, o.b = "va", "vb"
+        return o
+    # every one of the 16 settings, each entered from a setting that differs in xstq (and, by the shuffle, in others)
+    combos = list(itertools.product((True, False), repeat=4))
+    rng.shuffle(combos)
+    off = [k for k in combos if not k[2]]
+    on = [k for k in combos if k[2]]
+    order = [k for pair in zip(off, on) for k in pair] + [off[0], on[-1], off[-1]]
+    for step, key in enumerate(order):
+        setting = dict(zip(("prefixes", "prettyxml", "xstq", "sortNamespaces"), key))
+        meta = {"stream": "toggled-client", "step": step, "options": setting}
+        ctx.case(common.canon(meta), True)
+        try:
+            live.set_options(**setting)
+            got = wsdlkit.envelope_bytes(live.service.f(o=derived(live)))
+            fresh = wsdlkit.client(w, nosend=True, **setting)
+            want = wsdlkit.envelope_bytes(fresh.service.f(o=derived(fresh)))
+            same = xmlread.infoset(xmlread.parse(got), drop_type_ns=False) == xmlread.infoset(xmlread.parse(want), drop_type_ns=False) \
+                and (b"\n" in got.split(b"?>", 1)[-1]) == (b"\n" in want.split(b"?>", 1)[-1])
+        except Exception as e:
+            got, want, same = repr(e).encode(), b"a request", False
+        if not same:
+            ctx.fail("request differs from the reference setting in meaning", meta, got.decode("utf-8", "replace"),
+                     want.decode("utf-8", "replace"))
+            break
 
 
 def suds_parse(text):
@@ -530,6 +566,7 @@ def run(ctx):
     family_option_checks(ctx)
     tree_checks(ctx)
     option_checks(ctx)
+    toggled_client(ctx)
     ctx.sample({"tree_pass": "promote", "note": "random namespace-well-formed trees"})
     ctx.sample({"options": "all 16 settings", "args": "Derived object with nillable None + raw Element + Element header"})
 
